@@ -90,7 +90,7 @@ func execVertable(op string, args []string) string {
 	}
 	switch op {
 	case "meta":
-		return "ver=" + string(v.Version()) + ";stable=" + b01(v.Stable()) + ";sr=" + istr(int(v.StateResAlgorithm())) +
+		return "ok:ver=" + string(v.Version()) + ";stable=" + b01(v.Stable()) + ";sr=" + istr(int(v.StateResAlgorithm())) +
 			";ef=" + istr(int(v.EventFormat())) + ";eid=" + istr(int(v.EventIDFormat())) +
 			";dl=" + b01(v.DomainlessRoomIDs()) + ";pc=" + b01(v.PrivilegedCreators())
 	case "sigvalid":
@@ -139,7 +139,7 @@ func execVertable(op string, args []string) string {
 			return strings.Join(ks, ",")
 		}
 		res := gjson.ParseBytes(out)
-		return "top=" + keys(res) + ";content=" + keys(res.Get("content"))
+		return "ok:top=" + keys(res) + ";content=" + keys(res.Get("content"))
 	case "built":
 		return builtProbe(v)
 	}
@@ -199,7 +199,7 @@ func builtProbe(v gmsl.IRoomVersion) string {
 		case strings.HasPrefix(id, "$") && strings.HasSuffix(id, ":b") && len(id) == 1+16+2:
 			idKind = "domain"
 		}
-		return "prev=" + prevKind + ";eid_in_json=" + b01(gjson.GetBytes(js, "event_id").Exists()) + ";id=" + idKind
+		return "ok:prev=" + prevKind + ";eid_in_json=" + b01(gjson.GetBytes(js, "event_id").Exists()) + ";id=" + idKind
 	}
 	return "harness:no-distinguishing-hash"
 }
